@@ -388,6 +388,9 @@ auto typed_numeric(Case const& c) -> std::string
         a.push_back(wrap_value<In>(c.a[static_cast<std::size_t>(i)]));
         b.push_back(wrap_value<In>(c.a[static_cast<std::size_t>((i + 1) % L)] + 1));
     }
+    // exclusion class "C06.adjacent_difference.narrow_default": the default-op overload with an element type narrower than
+    // int is left out of the rendering (the explicit-op overload and every other algorithm stay in)
+    bool const adiff_default = !(sizeof(In) < sizeof(int) && known("C06.adjacent_difference.narrow_default"));
     constexpr bool flt = std::is_floating_point_v<In>;
     // std::reduce / transform_reduce may group element with element first: op(In, In) is then evaluated in the promoted
     // type of In.  With a wider init the result is only grouping-independent when that promoted type cannot wrap (In narrower than int)
@@ -410,7 +413,7 @@ auto typed_numeric(Case const& c) -> std::string
         auto r3 = std::adjacent_difference(a.begin(), a.end(), w3.begin()) - w3.begin();
         auto r4 = std::adjacent_difference(a.begin(), a.end(), w4.begin(), Op{}) - w4.begin();
         std::partial_sum(a.begin(), a.end(), n1.begin(), Op{}); // wide op, narrow destination
-        s += "psum " + num(r1) + tvec(w1.data(), L) + " psum_op " + num(r2) + tvec(w2.data(), L) + " adiff " + num(r3) + tvec(w3.data(), L) + " adiff_op " + num(r4) + tvec(w4.data(), L) + " psum_narrow" + tvec(n1.data(), L);
+        s += "psum " + num(r1) + tvec(w1.data(), L) + " psum_op " + num(r2) + tvec(w2.data(), L) + " adiff " + (adiff_default ? num(r3) + tvec(w3.data(), L) : std::string("-")) + " adiff_op " + num(r4) + tvec(w4.data(), L) + " psum_narrow" + tvec(n1.data(), L);
         s += " acc " + tnum(std::accumulate(a.begin(), a.end(), Wide{7})) + "," + tnum(std::accumulate(a.begin(), a.end(), In{7})) + "," + tnum(std::accumulate(a.begin(), a.end(), Wide{7}, Op{})) + "," + tnum(std::accumulate(a.begin(), a.end(), In{7}, Op{}));
         s += " inner " + tnum(std::inner_product(a.begin(), a.end(), b.begin(), Wide{7})) + "," + tnum(std::inner_product(a.begin(), a.end(), b.begin(), In{7}));
         if constexpr (!flt) { // reductions in unspecified order: exact (modular) arithmetic only
@@ -441,7 +444,7 @@ auto typed_numeric(Case const& c) -> std::string
         auto r3 = noff(W3, etl::adjacent_difference(nat<K>(A, 0), nat<K>(A, L), noat<K>(W3, 0)));
         auto r4 = noff(W4, etl::adjacent_difference(nat<K>(A, 0), nat<K>(A, L), noat<K>(W4, 0), Op{}));
         etl::partial_sum(nat<K>(A, 0), nat<K>(A, L), noat<K>(N1, 0), Op{});
-        e += "psum " + num(r1) + tvec(W1.b(), L) + " psum_op " + num(r2) + tvec(W2.b(), L) + " adiff " + num(r3) + tvec(W3.b(), L) + " adiff_op " + num(r4) + tvec(W4.b(), L) + " psum_narrow" + tvec(N1.b(), L);
+        e += "psum " + num(r1) + tvec(W1.b(), L) + " psum_op " + num(r2) + tvec(W2.b(), L) + " adiff " + (adiff_default ? num(r3) + tvec(W3.b(), L) : std::string("-")) + " adiff_op " + num(r4) + tvec(W4.b(), L) + " psum_narrow" + tvec(N1.b(), L);
         auto a1 = etl::accumulate(nat<K>(A, 0), nat<K>(A, L), Wide{7});
         auto a2 = etl::accumulate(nat<K>(A, 0), nat<K>(A, L), In{7});
         auto a3 = etl::accumulate(nat<K>(A, 0), nat<K>(A, L), Wide{7}, Op{});
